@@ -4,6 +4,44 @@ import vlib
 from vlib import Report, tlc, trace_validate, workdir, log, Infra
 
 
+def parallel_cold(rep, pid, only):
+    """Family (D) of the purity histories for one entry point (used by the checks of the decoders / parsers / verifiers):
+    independent objects worked on in parallel, cold, in the -race binary; judged by Trace_Purity."""
+    wd = workdir(pid)
+    exe = vlib.build_harness(race=True)
+    outp, errp = os.path.join(wd, "par.ndjson"), os.path.join(wd, "par-race.log")
+    env = dict(os.environ, GORACE="halt_on_error=0", VERIF_SEED=str(vlib.seed()))
+    with open(outp, "w") as fo, open(errp, "w") as fe:
+        p = subprocess.run([exe, "par-run", only], stdout=fo, stderr=fe, env=env, timeout=3000)
+    errtxt = open(errp).read()
+    races = errtxt.count("WARNING: DATA RACE")
+    fatal_conc = "fatal error: concurrent map" in errtxt
+    if p.returncode not in (0, 66) and not races and not fatal_conc:
+        raise Infra("parallel harness failed (%d): %s" % (p.returncode, errtxt[-2000:]))
+    cases = {}
+    for line in open(outp):
+        d = json.loads(line)
+        cases[d["case"]] = d
+    if races or fatal_conc:
+        import re
+        m = re.findall(r"(github.com/WICG/webpackage/[^\s(]+)\(", errtxt)
+        ev = {"case": "qrace", "kind": "race", "site": m[0] if m else "unknown", "calls": [], "ref": [], "mutated": False, "sharedcap": False}
+        cases[ev["case"]] = ev
+        with open(outp, "a") as f:
+            f.write(json.dumps(ev) + "\n")
+    n, rejects, states = trace_validate("Trace_Purity", pid + "/par", outp, shards=4, timeout=3000)
+    rep.cov["states"] += states
+    rep.cov["transitions"] += states
+    rep.cov["traces_validated_against_impl"] += n
+    for rj in rejects:
+        c = cases[rj["case"]]
+        if c["kind"] == "race":
+            rep.violation("par:race:" + c["site"], "data race / concurrent map access in %s while independent objects are used in parallel (log: %s)" % (c["site"], errp), {"component": "parallel", "site": c["site"]})
+        else:
+            rep.violation("par:%s" % c["ser"], "%s on independent objects in parallel (goroutine %s): the result differs from the sequential one" % (c["ser"], c["sched"]), {"component": "parallel", "ser": c["ser"]})
+    rep.add("parallel_cold:" + only, calls=n, race_reports=races, rejected=len(rejects))
+
+
 def check_c18(tier):
     rep = Report("C18", tier, level="model_checking")
     rep.cov["rule"] = ("design level: MC_Purity explores every interleaving of N goroutines x S Write steps over a shared input slice [len, cap] and shows: outputs are "
@@ -41,19 +79,23 @@ def check_c18(tier):
     env = dict(os.environ, GORACE="halt_on_error=0", VERIF_SEED=str(vlib.seed()))
     with open(vp) as fi, open(outp, "w") as fo, open(errp, "w") as fe:
         p = subprocess.run([exe, "purity-run", tier], stdin=fi, stdout=fo, stderr=fe, env=env, timeout=3000)
-    races = open(errp).read().count("WARNING: DATA RACE")
-    if p.returncode not in (0, 66):
-        raise Infra("purity harness failed (%d): %s" % (p.returncode, open(errp).read()[-2000:]))
+    errtxt = open(errp).read()
+    races = errtxt.count("WARNING: DATA RACE")
+    # the Go runtime kills the process on unsynchronised map access ("fatal error: concurrent map writes"): that is an
+    # observation about the code, not an infrastructure failure
+    fatal_conc = "fatal error: concurrent map" in errtxt
+    if p.returncode not in (0, 66) and not races and not fatal_conc:
+        raise Infra("purity harness failed (%d): %s" % (p.returncode, errtxt[-2000:]))
     cases = {}
     for line in open(outp):
         d = json.loads(line)
         cases[d["case"]] = d
     race_sites = []
-    if races:
-        txt = open(errp).read()
+    if races or fatal_conc:
+        txt = errtxt
         import re
-        for blk in txt.split("WARNING: DATA RACE")[1:]:
-            m = re.findall(r"(github.com/WICG/webpackage/[^\s(]+)\(\)", blk)
+        for blk in txt.split("WARNING: DATA RACE")[1:] + (txt.split("fatal error: concurrent map")[1:2] if fatal_conc else []):
+            m = re.findall(r"(github.com/WICG/webpackage/[^\s(]+)\(", blk)
             site = m[0] if m else "unknown"
             if site not in race_sites:
                 race_sites.append(site)
